@@ -34,11 +34,13 @@ class Prop(common.PropertyCheck):
         rng = self.rng
         combos = [(False, True, 2, 2), (True, False, 1, 3)] if self.tier == 'quick' else \
                  [(p, h, ni, ca) for p in (False, True) for h in (False, True) for ni in (1, 2) for ca in (1, 2, 3)]
+        # an instrument with 12 fluorescence channels, all reported and plotted
+        yield {'k': 'run', 'plot': True, 'hist': rng.random() < 0.5, 'ninst': 1, 'arity': 1, 'default_out': False, 'seed': rng.randrange(1 << 30), 'inp_name': 'wide', 'wide': 12}
         for plot, hist, ninst, arity in combos:
             yield {'k': 'run', 'plot': plot, 'hist': hist, 'ninst': ninst, 'arity': arity, 'default_out': rng.random() < 0.5 or (plot and not hist), 'seed': rng.randrange(1 << 30),
                    'inp_name': rng.choice(['samples', 'cells', 'mix.xls', 'xlsx', 'results.'] + ([] if (plot and not hist) else ['experiment', 'plate_07']))}
         for _ in range(self.budget(25, 300)):
-            yield {'k': 'roundtrip', 'seed': rng.randrange(1 << 30), 'nrows': rng.randrange(0, 7), 'dup': rng.random() < 0.2, 'noid': rng.random() < 0.5}
+            yield {'k': 'roundtrip', 'seed': rng.randrange(1 << 30), 'nrows': rng.randrange(0, 7), 'dup': rng.random() < 0.2, 'noid': rng.random() < 0.5, 'ws': rng.random() < 0.4}
         if self.tier == 'thorough':
             yield {'k': 'example', 'plot': True}
 
@@ -57,6 +59,11 @@ class Prop(common.PropertyCheck):
         r = np.random.RandomState(case['seed'] % (1 << 31))
         n = case['nrows']
         ids = ['id%d' % i for i in range(n)]
+        if case.get('ws') and n >= 2:
+            # identifiers that differ only by surrounding whitespace are distinct identifiers and come back unchanged
+            ids[0] = 'id1 '; ids[-1] = ' lead'
+            if n >= 3:
+                ids[1] = 'id1'; ids[2] = 'in ner'
         if case['dup'] and n >= 2:
             ids[-1] = ids[0]
 
@@ -102,7 +109,7 @@ class Prop(common.PropertyCheck):
             shutil.rmtree(tmp, ignore_errors=True)
 
     def run_workbook(self, case):
-        ex = excelgen.Experiment(case['seed'], datatype='I', instruments=case['ninst'])
+        ex = excelgen.Experiment(case['seed'], datatype='I', instruments=case['ninst'], wide=case.get('wide', 0))
         try:
             os.makedirs(os.path.join(ex.dir, 'FCFiles'))
             inst = ex.instruments_table()
@@ -116,6 +123,10 @@ class Prop(common.PropertyCheck):
             srows.append(excelgen.sample_row('S1', 'FC001', 'FCFiles/s1.fcs', {'FL1': 'Channel', 'FL3': 'mef'}, 'B1', gate_fraction=0.5, extra={'Strain': 'y', 'Dose': 0}))
             # a row used for gating and event counts only: no units cell filled in
             srows.append(excelgen.sample_row('S2', 'FC001', 'FCFiles/s1.fcs', {}, 'B1', gate_fraction=0.7, extra={'Strain': 'w', 'Dose': 3}))
+            if case.get('wide'):
+                ex.write_fcs('FCFiles/w0.fcs', 'FCW', n=650, seed=case['seed'] % 1000 + 8)
+                srows.append(excelgen.sample_row('W0', 'FCW', 'FCFiles/w0.fcs', {c: ['RFI', 'a.u.', 'Channel'][k % 3] for k, c in enumerate(ex.inst['FCW']['fl'])}, None,
+                                                 extra={'Strain': 'v', 'Dose': 4}))
             if case['ninst'] == 2:
                 ex.write_fcs('FCFiles/t0.fcs', 'FC002', n=650, seed=case['seed'] % 1000 + 7)
                 srows.append(excelgen.sample_row('T0', 'FC002', 'FCFiles/t0.fcs', {'GFP-A': 'RFI'}, None, extra={'Strain': 'z', 'Dose': 2}))
